@@ -14,7 +14,7 @@ import (
 func init() {
 	register("C11",
 		func(e *Env) { streamFraming(e, "C11.framing", "pkg/protocol/http1/req") },
-		c11Max, c11Host, c11Continue, c02Retry, c14Drain, c14EOF, c10Rewind, c04Slots, c10SkipBody, c09Siblings, c17Slot, c17DeepCopy, c04OwnedLen, c11PutEscape, c04ReadCommit,
+		c11Max, c11Host, c11Continue, c02Retry, c14Drain, c14EOF, c10Rewind, c04Slots, c10SkipBody, c09Siblings, c17Slot, c17DeepCopy, c04OwnedLen, c11PutEscape, c04ReadCommit, c03EOFConv,
 		// the request goes out and the response comes in through the buffered connection
 		c13Alias, c13Window, c13Remainder, c13WriterReset,
 		// the exchange function arms the deadlines of every write and read of the request
